@@ -501,6 +501,25 @@ pub fn drive_c08(a: &Args) {
         inner.extend(braced.iter());
         out.emit(print_event(&inner));
     }
+    // spelled escapes over representatives of every class of hex digit (0-9, a-f, A-F) and their non-hex
+    // neighbours, in each position: four-digit form complete, braced form up to three digits complete
+    let hexish = [48u32, 57, 97, 102, 65, 70, 103, 71];
+    for ds in all_strings(&hexish, 4) {
+        if ds.is_empty() {
+            continue;
+        }
+        if ds.len() == 4 {
+            let mut four = vec![92, 117];
+            four.extend(ds.iter());
+            out.emit(print_event(&four));
+        }
+        if ds.len() <= 3 || (a.thorough() && ds.len() == 4) {
+            let mut braced = vec![92, 117, 123];
+            braced.extend(ds.iter());
+            braced.push(125);
+            out.emit(print_event(&braced));
+        }
+    }
     for s in [cps("\\u{41}"), cps("\\u0041"), cps("\\u{2ffff}"), cps("\\\\u0041"), cps("a\"\"b"), cps("\"")] {
         out.emit(print_event(&s));
     }
